@@ -240,9 +240,19 @@ def lex_cov(rep, X, rule, nontrivial, tlcs, tv):
 def product_jobs(X):
     jobs = []
     for ci, c in enumerate(X["acc"]):
+        if len(c["gen"].get("tables", [])) != len(c["modes"]):
+            continue        # reported by table_count_failures
         for mi in range(len(c["modes"])):
             jobs.append({"c": ci + 1, "m": mi + 1})
     return jobs
+
+
+def table_count_failures(rep, X, prop):
+    """one emitted table per mode is what the row format and the driver assume"""
+    for c in X["acc"]:
+        nt, nm = len(c["gen"].get("tables", [])), len(c["modes"])
+        if nt != nm:
+            rep.failure("%s.mode-table-count:%s" % (prop, c["id"]), "spec %s: %d mode tables emitted for %d modes" % (c["id"], nt, nm), lreplay(c))
 
 
 # =========================================================================== C02
@@ -279,6 +289,7 @@ def c02(tier):
                     "spec %s input %r: tokens %s, rules define %s" % (c["id"], show_input(run["chars"]), b["got"], b["want"]),
                     lreplay(c, run, {"want": b["want"]}))
     # all strings: product of the emitted table with the reference automaton
+    table_count_failures(rep, X, "c02")
     pbad, rp = run_product(sc, X["lcases"], product_jobs(X))
     for b in pbad:
         j = product_jobs(X)[b["j"]]
